@@ -2,6 +2,7 @@ from pulser.backend import EmulatorBackend, Results, BitStrings
 from emu_sv.sv_config import SVConfig
 from emu_sv.sv_backend_impl import SVBackendImpl
 from emu_base import PulserData, SequenceData
+from emu_base import _verif
 
 
 class SVBackend(EmulatorBackend):
@@ -33,6 +34,8 @@ class SVBackend(EmulatorBackend):
         results = []
         for sequence_data in pulser_data.get_sequences():
             results.append(self._run_from_sequence_data(sequence_data, self._config))
+        if _verif.enabled():
+            _verif.emit("aggregate", backend="sv", n=len(results))
         return Results.aggregate(results)
 
     @staticmethod
